@@ -141,3 +141,113 @@ def field_coverage(model: Model, G: Grammar, D: Dispatch, holders: Set[str], col
                                   f"{c.func.attr} stores into {sorted(flds)}, which _Traverse hands out",
                                   f"{c.func.attr} stores `{P.syms[i-1]}` into {sorted(flds)}, which Module._Traverse does not hand out", ASTF, mod.node)
     return n
+
+
+def _getters_of(ci) -> Dict[str, tuple]:
+    """accessor method -> (field it returns, index or None):  GetLeft -> ('children', 0), GetArguments -> ('children', None)"""
+    out = {}
+    for c in ci.mro:
+        for name, m in c.methods.items():
+            if name in out or len(m.args.args) != 1:
+                continue
+            body = [s for s in m.body if not (isinstance(s, ast.Expr) and isinstance(s.value, ast.Constant))]
+            if len(body) == 1 and isinstance(body[0], ast.Return) and body[0].value is not None:
+                v = body[0].value
+                if isinstance(v, ast.Attribute) and isinstance(v.value, ast.Name) and v.value.id == m.args.args[0].arg:
+                    out[name] = (mangle(c.name, v.attr), None)
+                elif isinstance(v, ast.Subscript) and isinstance(v.value, ast.Attribute) and isinstance(v.value.value, ast.Name) and v.value.value.id == m.args.args[0].arg \
+                        and isinstance(v.slice, ast.Constant) and isinstance(v.slice.value, int):
+                    out[name] = (mangle(c.name, v.value.attr), v.slice.value)
+    return out
+
+
+def check_handler_coverage(model: Model, D: Dispatch, col, rule: str, visitor, rel: str, why: str) -> int:
+    """Every explicit handler v_<Class> of `visitor` hands every child of its node on to the visitor (through dispatch) on
+    every path: `node.AcceptVisitor(self, ..)`, or v_Generic / v_Visit of each child field (for a list field: of every element,
+    or of each indexed accessor the class has).  `<child>.AcceptVisitor(self)` only reaches the grandchildren: it does not count
+    for that child."""
+    from .paths import paths, calls_on_path
+
+    n = 0
+    ast_by_name = {c.name: c for c in D.ast_classes()}
+    for hname, h in sorted(visitor.methods.items()):
+        if not hname.startswith("v_") or hname in ("v_Generic", "v_Visit", "v_Default") or len(h.args.args) < 2:
+            continue
+        ci = ast_by_name.get(hname[2:])
+        if ci is None:
+            continue
+        fields = [f for f, _ in D.traversed_fields(ci)]
+        if not fields:
+            continue
+        n += 1
+        getters = _getters_of(ci)
+        nodep = h.args.args[1].arg
+        selfn = h.args.args[0].arg
+        idx_getters = {}
+        for g, (f, i) in getters.items():
+            if i is not None:
+                idx_getters.setdefault(f, set()).add(i)
+        missing_somewhere = None
+        for evs, status in paths(h.body):
+            if status == "raise":
+                continue
+            covered = set()
+            partial = {}
+            whole = False
+            loops = [e.node for e in evs if e.kind == "loop" and isinstance(e.node, ast.For)]
+            for c in calls_on_path(evs):
+                la = last_attr(c)
+                if la == "AcceptVisitor" and isinstance(c.func, ast.Attribute) and unparse(c.func.value) == nodep and c.args and unparse(c.args[0]) == selfn:
+                    whole = True
+                if la in ("v_Generic", "v_Visit") and c.args:
+                    a = c.args[0]
+                    # direct child: node.GetX()
+                    if isinstance(a, ast.Call) and isinstance(a.func, ast.Attribute) and unparse(a.func.value) == nodep and a.func.attr in getters:
+                        f, i = getters[a.func.attr]
+                        if i is None:
+                            covered.add(f)
+                        else:
+                            partial.setdefault(f, set()).add(i)
+                    # element of a loop over a list-valued accessor / the node itself / node.children
+                    if isinstance(a, ast.Name):
+                        for lp in loops:
+                            if a.id in {x.id for x in ast.walk(lp.target) if isinstance(x, ast.Name)}:
+                                it = lp.iter
+                                if isinstance(it, ast.Call) and dotted_name(it.func) == "zip" and it.args:
+                                    it = it.args[0]
+                                if isinstance(it, ast.Call) and isinstance(it.func, ast.Attribute) and unparse(it.func.value) == nodep and it.func.attr in getters and getters[it.func.attr][1] is None:
+                                    covered.add(getters[it.func.attr][0])
+                                elif unparse(it) in (nodep, f"{nodep}.children"):
+                                    covered.add(mangle(ci.name, "children") if mangle(ci.name, "children") in fields else "children")
+            # a loop that visits each element unconditionally covers the list it runs over, whether or not the path iterates it
+            for lp in loops:
+                tnames = {x.id for x in ast.walk(lp.target) if isinstance(x, ast.Name)}
+                visits_elem = any(isinstance(s, ast.Expr) and isinstance(s.value, ast.Call) and last_attr(s.value) in ("v_Generic", "v_Visit") and s.value.args
+                                  and isinstance(s.value.args[0], ast.Name) and s.value.args[0].id in tnames for s in lp.body)
+                if not visits_elem:
+                    continue
+                it = lp.iter
+                if isinstance(it, ast.Call) and dotted_name(it.func) == "zip" and it.args:
+                    it = it.args[0]
+                if isinstance(it, ast.Call) and isinstance(it.func, ast.Attribute) and unparse(it.func.value) == nodep and it.func.attr in getters and getters[it.func.attr][1] is None:
+                    covered.add(getters[it.func.attr][0])
+                elif unparse(it) in (nodep, f"{nodep}.children"):
+                    covered.add("children")
+            for f, got in partial.items():
+                if idx_getters.get(f) and got >= idx_getters[f]:
+                    covered.add(f)
+            miss = [f for f in fields if not whole and f not in covered]
+            if miss and missing_somewhere is None:
+                missing_somewhere = miss
+        col.check(missing_somewhere is None, rule, f"{rel}::{hname} hands every child on", f"children {fields} are all visited through dispatch on every path",
+                  f"{hname} does not visit {missing_somewhere} of its node (a `<child>.AcceptVisitor(..)` call only reaches the grandchildren): {why}", rel, h)
+    return n
+
+
+def dotted_name(e):
+    if isinstance(e, ast.Name):
+        return e.id
+    if isinstance(e, ast.Attribute):
+        b = dotted_name(e.value)
+        return f"{b}.{e.attr}" if b else None
+    return None
